@@ -3,6 +3,7 @@ package fam
 import (
 	"fmt"
 	"math"
+	"regexp"
 	"sort"
 	"strings"
 
@@ -102,7 +103,24 @@ func (w *World) ExpectedRejects(s *Spec) []Exp {
 			out = append(out, Exp{Kw: "maxLength", Kind: "cmp", Op: ">", Atom: s.Atoms["maxLength"], Len: true, Chars: true})
 		}
 		if s.Has("pattern") {
-			out = append(out, Exp{Kw: "pattern", Kind: "pattern", Atom: s.Atoms["pattern"]})
+			e := Exp{Kw: "pattern", Kind: "pattern", Atom: s.Atoms["pattern"]}
+			// a world in which the generator found the pattern's text equal to a constant: the check may be dropped only if that
+			// text matches every string (decided negatively by probes: one refused probe proves the check is needed)
+			for k, v := range w.Facts {
+				if id, lit, ok := absint.ConstPairOf(k, func(id int) bool { return id == e.Atom.ID }); ok && v == 1 && id == e.Atom.ID {
+					if re, err := regexp.Compile(lit); err == nil {
+						universal := true
+						for _, probe := range []string{"", "a", " ", "a\nb", "\n", "\r\n", "\u00e9", "\x00", "A9_-", strings.Repeat("xy", 40)} {
+							if !re.MatchString(probe) {
+								universal = false
+							}
+						}
+						e.Optional = universal
+						e.Kw = fmt.Sprintf("pattern (whose text the generator found equal to %q)", lit)
+					}
+				}
+			}
+			out = append(out, e)
 		}
 		for _, kw := range s.Twice {
 			switch kw {
